@@ -7,6 +7,7 @@ import (
 	"errors"
 	"fmt"
 	"os"
+	"strings"
 	"time"
 
 	"github.com/criyle/go-sandbox/container"
@@ -43,7 +44,8 @@ func c10KRun(c *vcore.Ctx) *vcore.Violation {
 	used := map[int]bool{}
 	var last string
 	for i := 0; i <= n; i++ {
-		stage := src.Pick("stage", "run", "run", "garbage_exec", "unknown_exe", "non_executable", "empty_args", "callback_error", "callback_error_after_exec", "text_busy", "ping", "reset_open")
+		stage := src.Pick("stage", "run", "run", "garbage_exec", "unknown_exe", "non_executable", "empty_args", "callback_error", "callback_error_after_exec", "text_busy", "ping", "reset_open",
+			"oversize_env", "closed_descriptor", "too_many_descriptors", "open_oversize_reply", "open_too_many_files")
 		if i == n {
 			stage = "run" // epilogue: a fresh successful Execve
 		}
@@ -84,6 +86,53 @@ func c10KRun(c *vcore.Ctx) *vcore.Violation {
 			busy = mk("/w/busy", 0777, "#!/bin/true\n")
 			p.Args = []string{"/w/busy"}
 			c.Fault("exec_text_busy")
+		case "oversize_env":
+			// a request the 32 KiB frame of the control socket cannot carry; an implementation that can carry it
+			// after all runs the program
+			p.Args = []string{ct.probe, "exit", fmt.Sprint(code)}
+			p.Env = append(p.Env, "BIG="+strings.Repeat("e", 33000+src.Int(9000, "nbig")))
+			c.Fault("message_refused:oversize_env")
+		case "closed_descriptor":
+			p.Args = []string{ct.probe, "exit", fmt.Sprint(code)}
+			p.Files = append(p.Files, 1999) // nothing in a worker has that many descriptors
+			c.Fault("message_refused:closed_descriptor")
+		case "too_many_descriptors":
+			p.Args = []string{ct.probe, "exit", fmt.Sprint(code)}
+			for len(p.Files) < 254+src.Int(40, "nbig") {
+				p.Files = append(p.Files, nullFile().Fd())
+			}
+			c.Fault("message_refused:too_many_descriptors")
+		case "open_oversize_reply", "open_too_many_files":
+			// a batch whose reply does not fit one packet (per-item error texts / more descriptors than SCM_RIGHTS
+			// carries): the call may fail as a whole, the environment stays usable
+			var batch []container.OpenCmd
+			if stage == "open_oversize_reply" {
+				for k, n := 0, 900+src.Int(300, "nbig"); k < n; k++ {
+					batch = append(batch, container.OpenCmd{Path: fmt.Sprintf("q/%d", k), Flag: os.O_RDONLY})
+				}
+			} else {
+				for k, n := 0, 254+src.Int(40, "nbig"); k < n; k++ {
+					batch = append(batch, container.OpenCmd{Path: fmt.Sprintf("/w/many/%d", k), Flag: os.O_RDWR | os.O_CREATE, Perm: 0644, MkdirAll: true})
+				}
+			}
+			c.Fault("message_refused:" + stage)
+			c.MarkNonTrivial()
+			var rs []container.OpenCmdResult
+			var oerr error
+			if !watchdog(30*time.Second, func() { rs, oerr = env.Open(batch) }) {
+				return vcore.Violate(prop, "hang", "open/"+stage, "Open (%s, %d items) did not return", stage, len(batch))
+			}
+			for _, r := range rs {
+				if r.File != nil {
+					r.File.Close()
+				}
+			}
+			c.Logf("op %d %s (%d items): %v", i, stage, len(batch), oerr)
+			last = "open/" + stage
+			if !pidAlive(initPid) {
+				return vcore.Violate(prop, "container_exit", last, "the container init died after an Open batch of %d items (%s): %v", len(batch), stage, oerr)
+			}
+			continue
 		case "ping":
 			if err := env.Ping(); err != nil {
 				return vcore.Violate(prop, "unusable", "after:"+last, "Ping failed after %s: %v", last, err)
@@ -109,6 +158,9 @@ func c10KRun(c *vcore.Ctx) *vcore.Violation {
 		site := "execve/" + stage
 		if !ok {
 			return vcore.Violate(prop, "hang", site, "Execve (%s) did not return", stage)
+		}
+		if stage == "oversize_env" && res.Status != runner.StatusRunnerError {
+			wantFail = false
 		}
 		if wantFail {
 			if res.Status != runner.StatusRunnerError || res.Error == "" {
